@@ -106,10 +106,22 @@ def check_wsgi(P, R):
              'the status is inspected before _cast(): a returned / raised HTTPResponse or HTTPError sets the final status inside _cast, so a 204 / 304 '
              'response keeps its body (and an error replacing a 204 loses its body while keeping its Content-Length)',
              why='1xx, 204 and 304 responses carry no body; Content-Length equals the bytes returned', key_extra='after-cast')
-    sup = [n for n in g.nodes if n.kind == 'test' and 'HEAD' in src(n.ast) and '_status_code' in src(n.ast)]
+    sup = []
+    for n in g.nodes:
+        if n.kind != 'test':
+            continue
+        te = T.expand(f, n.ast, n)
+        alts = bool_operands(te, ast.Or)
+        if isinstance(te, ast.Name) and rd.is_local(te.id):
+            # a flag raised in steps (`no_body = <status test>; if not no_body: no_body = <method test>`): true when any of its definitions is
+            ds_ = rd.at(n, te.id)
+            if ds_ and all(d_.kind == 'assign' and d_.value is not None for d_ in ds_):
+                alts = [x_ for d_ in ds_ for x_ in bool_operands(T.expand(f, d_.value, d_.node), ast.Or)]
+        txt = ' '.join(src(a_) for a_ in alts)
+        if 'HEAD' in txt and '_status_code' in txt:
+            sup.append((n, alts))
     R.require(sup, 'wsgi: no body-suppression test')
-    sn = sup[0]
-    parts = bool_operands(sn.ast, ast.Or)
+    sn, parts = sup[0]
     codes = None
     for p in parts:
         cp = compare_parts(p)
@@ -156,14 +168,14 @@ def check_wsgi(P, R):
 def check_handle(P, R):
     f = P.func(f'{OM}:Ombott._handle')
     g, rd = f.cfg, f.rd
-    emits = [c for c in walk_shallow(f.node) if isinstance(c, ast.Call) and dotted(c.func) == 'self.emit' and c.args and isinstance(c.args[0], ast.Constant)]
+    emits = [c for c in T.calls_to(f, 'self.emit') if c.args and isinstance(c.args[0], ast.Constant)]
     before = [c for c in emits if c.args[0].value == 'before_request']
     after = [c for c in emits if c.args[0].value == 'after_request']
     R.require(before and after, '_handle: hook emissions not found')
     tries = [t for t in ast.walk(f.node) if isinstance(t, ast.Try) and t.finalbody and any(a is x for a in after for st in t.finalbody for x in ast.walk(st))]
     R.ob('C03.b', f, after[0], bool(tries), text='after_request emitted in a finally', detail='' if tries else
          'after_request is not emitted from a finally block: an exception in routing or the handler skips it')
-    route_calls = [c for c in walk_shallow(f.node) if isinstance(c, ast.Call) and dotted(c.func) in ('self.to_route', 'self.handler')]
+    route_calls = T.calls_to(f, 'self.to_route', 'self.handler')
     if tries:
         t = tries[0]
         for c in before + route_calls:
@@ -220,13 +232,20 @@ def check_handle(P, R):
         for nm in names:
             hmap[nm] = h
     h = hmap.get('HTTPResponse')
-    ok = h is not None and h.name and any(isinstance(n, ast.Return) and isinstance(n.value, ast.Name) and n.value.id == h.name for st in h.body for n in walk_shallow(st))
+    results = T.result_values(f)        # (value, node, return stmt): also the `result = ...; return result` single-exit style
+
+    def handed_back_in(hh):
+        return [v for (v, n_, r_) in results if n_.ast is not None and T._inside(n_.ast, hh.body)]
+    ok = h is not None and h.name and any(isinstance(v, ast.Name) and v.id == h.name for v in handed_back_in(h))
     R.ob('C03.c', f, h or t, ok, text='except HTTPResponse as r: return r', detail='' if ok else 'a raised HTTP response is not returned as the response')
     h = hmap.get('Exception')
     ok = False
     if h is not None:
-        rets = [n for st in h.body for n in walk_shallow(st) if isinstance(n, ast.Return)]
-        ok = bool(rets) and all(isinstance(r.value, ast.Call) and dotted(r.value.func) == 'HTTPError' and r.value.args and is_const(r.value.args[0], 500) for r in rets)
+        rets = handed_back_in(h)
+        ok = bool(rets) and all(isinstance(v, ast.Call) and dotted(v.func) == 'HTTPError' and v.args and is_const(v.args[0], 500) for v in rets)
+        # the handler must not complete without handing a response back
+        hn_ = f.cfg.nodes_for(h)
+        ok = ok and bool(hn_) and not f.cfg.can_reach(hn_[0], f.cfg.exit, avoid_nodes=[n_ for (v, n_, r_) in results if n_.ast is not None and T._inside(n_.ast, h.body)])
         # order: HTTPResponse handler before Exception handler
         ok = ok and t.handlers.index(hmap['HTTPResponse']) < t.handlers.index(h)
     R.ob('C03.c', f, h or t, ok, text='except Exception: return HTTPError(500, ...)', detail='' if ok else
@@ -324,7 +343,8 @@ def check_cast(P, R):
     R.ob('C03.g', f, ifs[0].ast if ifs else f.node, ok, text='iterator wrapped whenever the iterable has close()', detail='' if ok else
          'an iterable with close() is returned without the closing wrapper')
     # loop bound
-    lc = [n for n in g.nodes if n.kind == 'test' and compare_parts(n.ast) and compare_parts(n.ast)[1] is ast.Gt and isinstance(compare_parts(n.ast)[2], ast.Constant)]
+    lc = [n for n in g.nodes if n.kind == 'test' and compare_parts(n.ast) and compare_parts(n.ast)[1] in (ast.Gt, ast.GtE)
+          and isinstance(T.module_value(f, compare_parts(n.ast)[2]), ast.Constant)]
     R.ob('C03.d', f, lc[0].ast if lc else f.node, bool(lc), text='casting loop is bounded', detail='' if lc else 'the casting loop has no iteration bound', nontrivial=False)
 
 
